@@ -35,8 +35,29 @@ func (c *octx) twins(t *testing.T, cfg simrt.Config) *eng.Violation {
 			return nil
 		}
 		c.out.Probes["flattened_twin_compared"]++
-		_, fobs := execScn(t, flat, simrt.Config{Seed: cfg.Seed, Replay: true, Tape: c.res.Tape})
-		return c.sameCallbacks("nested-differs-from-flat", "the equivalent flattened flow", fobs)
+		fres, fobs := execScn(t, flat, simrt.Config{Seed: cfg.Seed, Replay: true, Tape: c.res.Tape})
+		if v := c.sameCallbacks("nested-differs-from-flat", "the equivalent flattened flow", fobs); v != nil {
+			return v
+		}
+		// a context handed to a callback must live as long in the nested arrangement
+		// as it does in the flat one (something created under it by one node is
+		// used by a later node)
+		died := func(evs []simrt.Event) (n int, first simrt.Event) {
+			for _, e := range evs {
+				if e.Kind == "ctx_died_early" {
+					if n == 0 {
+						first = e
+					}
+					n++
+				}
+			}
+			return
+		}
+		dn, fe := died(c.res.Events)
+		if df, _ := died(fres.Events); dn > df {
+			return c.viol("context-died-early", "nested: the context handed to a callback of node %d was already done when node %d ran although the run's context was alive (%d such cases); in the equivalent flattened flow this happens %d times", fe.N, fe.V, dn, df)
+		}
+		return nil
 	}
 	return nil
 }
